@@ -56,7 +56,9 @@ def gen(seed, index):
                 return ["D", [0, gen_m2.hexf(rng.choice([30, 60, 60, 90, 120])), gen_m2.hexf(0)]]
             n = rng.randint(2, 4)
             span = int(d * rng.choice([0.5, 1, 1, 2]))
-            GE = gen_m2.GE(rng, kind="T", unit=max(1, span // n), shapes=[0, 0, 1, -1, 2], last_positive=False, jumps=rng.choice([0, 0.2]))
+            GE = gen_m2.GE(rng, kind="T", unit=max(1, span // n), shapes=[0, 0, 1, -1, 2],
+                            last_positive=rng.random() < 0.25,   # a trajectory may end with a tail (its last point has a length of its own)
+                            jumps=rng.choice([0, 0.2]))
             return GE.env(n)
 
         return ["jointempo", kind, tempo(da), da, tempo(db), db]
